@@ -16,6 +16,8 @@ LEVEL_NOTE = ("Not decided: bit-identical results across processes as an observe
               "themselves.  Known limitation recorded in DESIGN.md: syntax-node ids are address-derived, so the iteration order of a *set of "
               "syntax nodes* can differ between two parses of the same source (value level, not decidable by these rules).")
 
+WITNESSES = ["W1"]
+
 
 def run(prog, rep):
     rep.rule("E4", "hash-iteration order never reaches an order-sensitive use")
